@@ -142,8 +142,10 @@ Print Assumptions C09_design_names_unique_partial.
    ===================================================================================================== *)
 
 (* 13. the cache key is the dict key: the lookup (hashes agree and the instances compare equal) succeeds for the
-       validated instances of two calls exactly when the calls have the same key.  ALL values. *)
+       validated instances of two calls exactly when the calls have the same key.  ALL hashable values (a list / dict / set
+       valued field has no hash: the lookup raises, theorems 35-37). *)
 Theorem C09_key_is_dict_lookup fs a1 a2 v1 v2 : validate_args fs a1 = Ok v1 -> validate_args fs a2 = Ok v2 ->
+  existsb has_mut v1 = false -> existsb has_mut v2 = false ->
   (lookup_hit v1 v2 = true <-> norm_args fs a1 = norm_args fs a2).
 Proof. exact (key_is_lookup fs a1 a2 v1 v2). Qed.
 Print Assumptions C09_key_is_dict_lookup.
@@ -151,6 +153,7 @@ Print Assumptions C09_key_is_dict_lookup.
 (* 14. name_value_only, keys: parameter instances that compare equal (params __eq__: Prefixed by value through
        Prefixed.__eq__, Decimal by value, nested classes field by field) have the same key, and conversely *)
 Theorem C09_key_is_eq fs a1 a2 v1 v2 : validate_args fs a1 = Ok v1 -> validate_args fs a2 = Ok v2 ->
+  existsb has_mut v1 = false -> existsb has_mut v2 = false ->
   fine_all v1 = true -> fine_all v2 = true ->
   (insts_eqb v1 v2 = true <-> norm_args fs a1 = norm_args fs a2).
 Proof. exact (key_is_eq fs a1 a2 v1 v2). Qed.
@@ -169,8 +172,13 @@ Theorem C09_equal_params_same_module U T suffix fuel ks st ms g G a1 a2 v1 v2 k1
   nth_error ms i = Some mi -> nth_error ms j = Some mj -> k1 = k2 /\ mi = mj.
 Proof.
   intros HG V1 V2 F1 F2 E K1 K2 H I J Mi Mj.
+  assert (forall a v k, validate_args (g_fields G) a = Ok v -> mk_key U (g, a) = Ok k -> existsb has_mut v = false) as NM.
+  { intros a v k Va Ka. unfold mk_key in Ka. cbn [fst snd] in Ka. rewrite HG in Ka.
+    destruct (norm_args (g_fields G) a) as [r|] eqn:N; simpl in Ka; [|discriminate].
+    apply norm_args_split in N. destruct N as [v' [Vv Cv]]. rewrite Va in Vv. inversion Vv. subst v'.
+    eapply canon_all_ok_no_mut; eassumption. }
   assert (k1 = k2) as ->.
-  { pose proof (proj1 (key_is_eq _ _ _ _ _ V1 V2 F1 F2) E) as N.
+  { pose proof (proj1 (key_is_eq _ _ _ _ _ V1 V2 (NM _ _ _ V1 K1) (NM _ _ _ V2 K2) F1 F2) E) as N.
     rewrite (mk_key_of_args U g G a1 a2 HG N) in K1. congruence. }
   split; [reflexivity|].
   exact (memo_same key key_eqb key_eqb_eq _ _ _ _ fuel ks st ms i j k2 mi mj H I J Mi Mj).
